@@ -162,7 +162,7 @@ def default_graphs():
         idx = {n: i for i, n in enumerate(names)}
         deps = tuple(tuple(sorted(idx[p] for p in dag.predecessors(n))) for n in names)
         try:
-            order = tuple(idx[n] for n in nx.topological_sort(dag))
+            order = tuple(idx[n] for n in nx.lexicographical_topological_sort(dag))
         except nx.NetworkXUnfeasible:
             order = tuple(range(len(names)))
         allowed = []
